@@ -145,7 +145,11 @@ class KrylovBased:
         )
         if self.E_shift is not None:
             if isinstance(self.H, OrthogonalNpcLinearOperator):
-                self.H.orig_operator = ShiftNpcLinearOperator(self.H.orig_operator, self.E_shift)
+                # shift the wrapped operator in a shallow copy: don't modify the operator object of the caller
+                H_ortho = self.H
+                self.H = H_ortho.__class__.__new__(H_ortho.__class__)
+                self.H.__dict__.update(H_ortho.__dict__)
+                self.H.orig_operator = ShiftNpcLinearOperator(H_ortho.orig_operator, self.E_shift)
             else:
                 self.H = ShiftNpcLinearOperator(self.H, self.E_shift)
         self._cache = []
